@@ -1,153 +1,181 @@
 (* C17 -- functions the generated cases files call.  No proofs here.
-   For every shape the harness reports a string of digits (0 ok, 1 rejected, 2 panic), one
-   group per (flag setting, prior state) in the order of the enumerations of Model.v; the
-   functions below compute the same string from the model and compare. *)
-From Coq Require Import List ZArith String Ascii Bool Arith.
+
+   Protocol.  A shape is named by a decimal code (one decimal digit per field, leading 1).
+   For every shape the harness reports digits (0 ok, 1 rejected, 2 panic), one group per
+   (flag setting, prior state) in the order of the enumerations of Model.v.  Codes and digit
+   strings travel as primitive 63-bit integers (literals of type [int] parse in constant
+   time; [Z] and [string] literals of this size do not): the code as it is, the digits
+   packed base 4, 30 per integer, first digit in the lowest bits.  The functions below
+   decode the code, compute the same digits from the model and compare. *)
+From Coq Require Import List ZArith Bool Arith Uint63.
 From NIC Require Import Shapes.Model.
 Import ListNotations.
-Open Scope string_scope.
 
-Definition digit (n : nat) : string :=
+(* ------------------------------------------------------------------ digits *)
+
+Definition small_nat (x : int) : nat := Z.to_nat (Uint63.to_Z x).
+
+(* decimal digits of x, least significant first *)
+Fixpoint dec_digits (n : nat) (x : int) : list nat :=
   match n with
-  | 0 => "0" | 1 => "1" | 2 => "2" | 3 => "3" | 4 => "4" | 5 => "5" | 6 => "6" | 7 => "7" | 8 => "8"
-  | _ => "9"
+  | O => []
+  | S n' => small_nat (x mod 10)%uint63 :: dec_digits n' (x / 10)%uint63
   end.
 
-Definition odigit (o : outcome) : string :=
-  match o with OOk => "0" | ORejected => "1" | OPanic => "2" end.
-
-Definition bdigit (b : bool) : string := if b then "1" else "0".
-
-Fixpoint has_char (c : ascii) (s : string) : bool :=
-  match s with
-  | EmptyString => false
-  | String a t => Ascii.eqb a c || has_char c t
+(* n base-4 digits of x, lowest first *)
+Fixpoint quads (n : nat) (x : int) : list nat :=
+  match n with
+  | O => []
+  | S n' => small_nat (x land 3)%uint63 :: quads n' (x >> 2)%uint63
   end.
 
-(* ------------------------------------------------------------------ Ingress descriptors *)
+(* the harness digit string: up to 90 digits in three integers *)
+Definition unpack (n : nat) (a b c : int) : list nat :=
+  quads (Nat.min n 30) a ++ quads (Nat.min (n - 30) 30) b ++ quads (Nat.min (n - 60) 30) c.
 
-Definition bk_digit (k : bk) : string := match k with KSvc => "1" | KRes => "2" | KNeither => "3" end.
-Definition ps_digit (s : pspec) : string := match s with PNil => "0" | PImplEmpty => "1" | PPrefix => "2" end.
-
-Definition paths_descr (p : paths_sh) : string :=
-  match p with
-  | Ps0 => "p0"
-  | Ps1 s k => "p1" ++ ps_digit s ++ bk_digit k
-  | Ps2 s k k2 => "p2" ++ ps_digit s ++ bk_digit k ++ bk_digit k2
+Fixpoint nats_eqb (a b : list nat) : bool :=
+  match a, b with
+  | [], [] => true
+  | x :: a', y :: b' => Nat.eqb x y && nats_eqb a' b'
+  | _, _ => false
   end.
-Definition http_descr (h : http_sh) : string :=
-  match h with HNil => "n" | HPaths p => paths_descr p end.
-Definition rules_descr (r : rules_sh) : string :=
+
+Definition has2 (l : list nat) : bool := existsb (Nat.eqb 2) l.
+Definition worst_digit (l : list nat) : Z :=
+  if has2 l then 2%Z else if existsb (Nat.eqb 1) l then 1%Z else 0%Z.
+
+(* drop the last digit of every group of [g] (the S-only digit the model does not predict) *)
+Fixpoint strip_last (g : nat) (k : nat) (l : list nat) : list nat :=
+  match l with
+  | [] => []
+  | x :: t => if Nat.eqb (S k) g then strip_last g 0 t else x :: strip_last g (S k) t
+  end.
+
+Definition odigit (o : outcome) : nat :=
+  match o with OOk => 0 | ORejected => 1 | OPanic => 2 end.
+
+(* code of a list of decimal digits given most significant first, with a leading 1 *)
+Definition code_of (ds : list nat) : int :=
+  fold_left (fun acc d => (acc * 10 + Uint63.of_Z (Z.of_nat d))%uint63) ds 1%uint63.
+
+(* row: [id; model agrees; spec holds; nontrivial; branch tag]
+   spec (S): an admissible shape shows no panic digit anywhere (including S-only digits).
+   nontrivial: the shape is admissible.  tag: 10 * admissible + worst digit of the model;
+   tag -1: the code does not name a shape. *)
+Definition row (id : int) (model obs_model_part obs_all : list nat) (adm : bool) : list Z :=
+  [Uint63.to_Z id;
+   if nats_eqb model obs_model_part then 1 else 0;
+   if adm && has2 obs_all then 0 else 1;
+   if adm then 1 else 0;
+   (if adm then 10 else 0) + worst_digit model]%Z.
+
+Definition bad_row (id : int) : list Z := [Uint63.to_Z id; 0; 0; 0; (-1)]%Z.
+
+(* ------------------------------------------------------------------ Ingress codes *)
+
+(* digits, most significant first, after the leading 1:
+   d default backend (0 none, 1 service, 2 resource, 3 neither); t tls; m mergeable type
+   (0 none, 1 master, 2 minion, 3 garbage); c challenge label; a annotations (0,1,2);
+   n number of rules; h http of rule 1 (0 nil, 1 no paths, 2 one path, 3 two paths);
+   s pathType shape of the first path (0 nil, 1 ImplementationSpecific+empty, 2 Prefix);
+   k backend of the first path (1 service, 2 resource, 3 neither); k2 backend of the second
+   path; r2 second rule (0 nil http, 1-3 backend of its path).  Unused fields are 0. *)
+Definition bk_digit (k : bk) : nat := match k with KSvc => 1 | KRes => 2 | KNeither => 3 end.
+Definition ps_digit (s : pspec) : nat := match s with PNil => 0 | PImplEmpty => 1 | PPrefix => 2 end.
+
+Definition http_digits (h : http_sh) : list nat :=
+  match h with
+  | HNil => [0; 0; 0; 0]
+  | HPaths Ps0 => [1; 0; 0; 0]
+  | HPaths (Ps1 s k) => [2; ps_digit s; bk_digit k; 0]
+  | HPaths (Ps2 s k k2) => [3; ps_digit s; bk_digit k; bk_digit k2]
+  end.
+
+Definition rules_digits (r : rules_sh) : list nat :=
   match r with
-  | Rs0 => "0"
-  | Rs1 h => "1" ++ http_descr h
-  | Rs2 h x => "2" ++ http_descr h ++ match x with R2Nil => "n" | R2Path k => bk_digit k end
+  | Rs0 => [0; 0; 0; 0; 0; 0]
+  | Rs1 h => 1 :: http_digits h ++ [0]
+  | Rs2 h x => 2 :: http_digits h ++ [match x with R2Nil => 0 | R2Path k => bk_digit k end]
   end.
 
-Definition ing_descr (s : ing_shape) : string :=
-  "d" ++ match sh_default s with None => "0" | Some k => bk_digit k end ++
-  "t" ++ bdigit (sh_tls s) ++
-  "m" ++ match sh_merge s with MNone => "0" | MMaster => "1" | MMinion => "2" | MGarbage => "3" end ++
-  "c" ++ bdigit (sh_chal s) ++
-  "a" ++ match sh_ann s with ANone => "0" | AClusterIP => "1" | AHealth => "2" end ++
-  "|" ++ rules_descr (sh_rules s).
+Definition ing_digits (s : ing_shape) : list nat :=
+  [match sh_default s with None => 0 | Some k => bk_digit k end;
+   if sh_tls s then 1 else 0;
+   match sh_merge s with MNone => 0 | MMaster => 1 | MMinion => 2 | MGarbage => 3 end;
+   if sh_chal s then 1 else 0;
+   match sh_ann s with ANone => 0 | AClusterIP => 1 | AHealth => 2 end] ++ rules_digits (sh_rules s).
 
-(* --- the parser of descriptors (inverse of ing_descr; Proofs.v checks the round trip) *)
+Definition ing_code (s : ing_shape) : int := code_of (ing_digits s).
 
-Definition parse_bk (c : ascii) : option bk :=
-  if Ascii.eqb c "1" then Some KSvc else if Ascii.eqb c "2" then Some KRes
-  else if Ascii.eqb c "3" then Some KNeither else None.
-Definition parse_ps (c : ascii) : option pspec :=
-  if Ascii.eqb c "0" then Some PNil else if Ascii.eqb c "1" then Some PImplEmpty
-  else if Ascii.eqb c "2" then Some PPrefix else None.
-Definition parse_bool (c : ascii) : option bool :=
-  if Ascii.eqb c "0" then Some false else if Ascii.eqb c "1" then Some true else None.
+Definition parse_bk (d : nat) : option bk :=
+  match d with 1 => Some KSvc | 2 => Some KRes | 3 => Some KNeither | _ => None end.
+Definition parse_ps (d : nat) : option pspec :=
+  match d with 0 => Some PNil | 1 => Some PImplEmpty | 2 => Some PPrefix | _ => None end.
+Definition parse_bool (d : nat) : option bool :=
+  match d with 0 => Some false | 1 => Some true | _ => None end.
 
-Definition parse_http (s : string) : option (http_sh * string) :=
-  match s with
-  | String "n" t => Some (HNil, t)
-  | String "p" (String "0" t) => Some (HPaths Ps0, t)
-  | String "p" (String "1" (String a (String b t))) =>
-      match parse_ps a, parse_bk b with
-      | Some x, Some k => Some (HPaths (Ps1 x k), t) | _, _ => None end
-  | String "p" (String "2" (String a (String b (String c t)))) =>
-      match parse_ps a, parse_bk b, parse_bk c with
-      | Some x, Some k, Some k2 => Some (HPaths (Ps2 x k k2), t) | _, _, _ => None end
+Definition parse_http (h s k k2 : nat) : option http_sh :=
+  match h with
+  | 0 => Some HNil
+  | 1 => Some (HPaths Ps0)
+  | 2 => match parse_ps s, parse_bk k with Some x, Some y => Some (HPaths (Ps1 x y)) | _, _ => None end
+  | 3 => match parse_ps s, parse_bk k, parse_bk k2 with
+         | Some x, Some y, Some z => Some (HPaths (Ps2 x y z)) | _, _, _ => None end
   | _ => None
   end.
 
-Definition parse_rules (s : string) : option rules_sh :=
-  match s with
-  | String "0" EmptyString => Some Rs0
-  | String "1" t => match parse_http t with Some (h, EmptyString) => Some (Rs1 h) | _ => None end
-  | String "2" t =>
-      match parse_http t with
-      | Some (h, String "n" EmptyString) => Some (Rs2 h R2Nil)
-      | Some (h, String c EmptyString) => option_map (fun k => Rs2 h (R2Path k)) (parse_bk c)
-      | _ => None
-      end
+Definition parse_rules (n h s k k2 r2 : nat) : option rules_sh :=
+  match n with
+  | 0 => Some Rs0
+  | 1 => option_map Rs1 (parse_http h s k k2)
+  | 2 => match parse_http h s k k2 with
+         | Some x => match r2 with
+                     | 0 => Some (Rs2 x R2Nil)
+                     | _ => option_map (fun b => Rs2 x (R2Path b)) (parse_bk r2)
+                     end
+         | None => None
+         end
   | _ => None
   end.
 
-Definition parse_ing (s : string) : option ing_shape :=
-  match s with
-  | String "d" (String d (String "t" (String t (String "m" (String m (String "c" (String c
-      (String "a" (String a (String "|" r)))))))))) =>
-      let od := if Ascii.eqb d "0" then Some None else option_map Some (parse_bk d) in
-      let om := if Ascii.eqb m "0" then Some MNone else if Ascii.eqb m "1" then Some MMaster
-                else if Ascii.eqb m "2" then Some MMinion else if Ascii.eqb m "3" then Some MGarbage else None in
-      let oa := if Ascii.eqb a "0" then Some ANone else if Ascii.eqb a "1" then Some AClusterIP
-                else if Ascii.eqb a "2" then Some AHealth else None in
-      match od, parse_bool t, om, parse_bool c, oa, parse_rules r with
+(* decode; the result is accepted only when it encodes back to the same code (canonical) *)
+Definition ing_of_code (c : int) : option ing_shape :=
+  match rev (dec_digits 12 c) with
+  | [1; d; t; m; ch; a; n; h; s; k; k2; r2] =>
+      let od := match d with 0 => Some None | _ => option_map Some (parse_bk d) end in
+      let om := match m with 0 => Some MNone | 1 => Some MMaster | 2 => Some MMinion | 3 => Some MGarbage | _ => None end in
+      let oa := match a with 0 => Some ANone | 1 => Some AClusterIP | 2 => Some AHealth | _ => None end in
+      match od, parse_bool t, om, parse_bool ch, oa, parse_rules n h s k k2 r2 with
       | Some d', Some t', Some m', Some c', Some a', Some r' =>
-          Some {| sh_default := d'; sh_tls := t'; sh_rules := r'; sh_merge := m'; sh_chal := c'; sh_ann := a' |}
+          let sh := {| sh_default := d'; sh_tls := t'; sh_rules := r'; sh_merge := m'; sh_chal := c'; sh_ann := a' |} in
+          if Uint63.eqb (ing_code sh) c then Some sh else None
       | _, _, _, _, _, _ => None
       end
   | _ => None
   end.
 
-(* --- the model's digits for one Ingress shape: for every flag setting of all_iflags, for
-   every prior state of all_ctx: validate, store, extend, delete *)
-
-Definition obs_digits (o : option ing_obs) : string :=
+(* the model's digits for one Ingress shape: for every flag setting of all_iflags, for every
+   prior state of all_ctx: validate, store, extend, delete *)
+Definition obs_digits (o : option ing_obs) : list nat :=
   match o with
-  | None => "9999"
-  | Some o => odigit (o_validate o) ++ odigit (o_config o) ++ odigit (o_extend o) ++ odigit (o_delete o)
+  | None => [9; 9; 9; 9]
+  | Some o => [odigit (o_validate o); odigit (o_config o); odigit (o_extend o); odigit (o_delete o)]
   end.
 
-Definition ing_model_digits_with chal (s : ing_shape) : string :=
-  String.concat "" (flat_map (fun fl => map (fun c =>
-    obs_digits (scenario_observe_with chal {| sc_flags := fl; sc_ctx := c; sc_shape := s |})) all_ctx) all_iflags).
+Definition ing_model_digits_with chal (s : ing_shape) : list nat :=
+  flat_map (fun fl => flat_map (fun c =>
+    obs_digits (scenario_observe_with chal {| sc_flags := fl; sc_ctx := c; sc_shape := s |})) all_ctx) all_iflags.
 
 Definition ing_model_digits := ing_model_digits_with validate_challenge.
 
-(* the harness reports 5 digits per group: the model's four plus the worker's sync function
-   (S only).  [strip5] drops every fifth digit. *)
-Fixpoint strip5 (s : string) : string :=
-  match s with
-  | String a (String b (String c (String d (String _ t)))) =>
-      String a (String b (String c (String d (strip5 t))))
-  | _ => s
-  end.
-
-Definition worst_digit (s : string) : Z :=
-  if has_char "2" s then 2%Z else if has_char "1" s then 1%Z else 0%Z.
-
-(* row: [id; model agrees; spec holds; nontrivial; branch tag]
-   spec (S): an admissible shape shows no panic digit anywhere (including the sync digit).
-   nontrivial: the shape is admissible.  tag: 10 * admissible + worst digit of the model. *)
-Definition ing_case (id : Z) (descr obs : string) : list Z :=
-  match parse_ing descr with
-  | None => [id; 0; 0; 0; (-1)]%Z
+(* the harness reports 5 digits per group: the model's four plus the worker's sync function *)
+Definition ing_case (id code o1 o2 o3 : int) : list Z :=
+  match ing_of_code code with
+  | None => bad_row id
   | Some s =>
-      let m := ing_model_digits s in
-      let adm := shape_admissible s in
-      [id;
-       if String.eqb m (strip5 obs) then 1 else 0;
-       if adm && has_char "2" obs then 0 else 1;
-       if adm then 1 else 0;
-       (if adm then 10 else 0) + worst_digit m]%Z
+      let obs := unpack 80 o1 o2 o3 in
+      row id (ing_model_digits s) (strip_last 5 0 obs) obs (shape_admissible s)
   end.
 
-(* the descriptor list handed to the harness *)
-Definition ing_descrs : list string := map ing_descr all_ing_shapes.
+(* sizes of the enumerations, in the order ing, vs, vsr, ts, pol, gc *)
+Definition shape_counts : list nat := [List.length all_ing_shapes; 0; 0; 0; 0; 0].
